@@ -337,14 +337,17 @@ let () =
         let check = inp.(7) in
         let pos = ref 12 and blocks = ref [] and err = ref "" and data = Buffer.create 1024 and stats = ref [] in
         while !err = "" && inp.(!pos) <> 0 do
-          if inp.(!pos) <> 2 || inp.(!pos + 1) <> 0 || inp.(!pos + 2) <> 0x21 then err := "header-shape"
+          let plain = inp.(!pos) = 2 && inp.(!pos + 1) = 0 && inp.(!pos + 2) = 0x21 in
+          let delta = inp.(!pos) = 2 && inp.(!pos + 1) = 1 && inp.(!pos + 2) = 3 && inp.(!pos + 5) = 0x21 in
+          if not (plain || delta) then err := "header-shape"
           else begin
-            let db = inp.(!pos + 4) in
+            let db = if plain then inp.(!pos + 4) else inp.(!pos + 7) in
+            let dl = if plain then None else Some (n_of_int inp.(!pos + 4)) in
             let (e, cs, p2, s, st) = trace_lzma2 inp (!pos + 12) in
             if e <> "" then err := "payload " ^ e
             else begin
-              blocks := { b_db = n_of_int db; b_chunks = cs } :: !blocks; stats := st :: !stats;
-              Buffer.add_string data (let h = hex_of_bytes (List.rev s.l2out) in if h = "-" then "" else h);
+              blocks := { b_delta = dl; b_db = n_of_int db; b_chunks = cs } :: !blocks; stats := st :: !stats;
+              Buffer.add_string data (let h = hex_of_bytes (b_data { b_delta = dl; b_db = n_of_int db; b_chunks = cs }) in if h = "-" then "" else h);
               let plen = p2 + 1 - (!pos + 12) in
               let padn = (4 - plen mod 4) mod 4 in
               let csz = (match check with 0 -> 0 | 1 -> 4 | 4 -> 8 | 10 -> 32 | _ -> 0) in
